@@ -101,11 +101,49 @@ func guardOpts[T any](opts []T) ([]T, func() bool) {
 	}
 }
 
+// feedPositions hands the ranges to a builder in one of three ways (chosen by the ranges themselves, so that it
+// replays): as given with AddRange; last to first, short ranges position by position from the top down with Add;
+// or first to last with short ranges position by position upwards. The set that is built is the same.
+func feedPositions(rng [][2]int, add func(int), addRange func(int, int)) {
+	h := 0
+	for _, r := range rng {
+		h += r[0] + 3*r[1]
+	}
+	if h < 0 {
+		h = -h
+	}
+	short := func(r [2]int) bool { return r[0] >= 0 && r[1] > r[0] && r[1]-r[0] <= 3 }
+	switch h % 3 {
+	case 0:
+		for _, r := range rng {
+			addRange(r[0], r[1])
+		}
+	case 1:
+		for i := len(rng) - 1; i >= 0; i-- {
+			if r := rng[i]; short(r) {
+				for x := r[1] - 1; x >= r[0]; x-- {
+					add(x)
+				}
+			} else {
+				addRange(r[0], r[1])
+			}
+		}
+	default:
+		for _, r := range rng {
+			if short(r) {
+				for x := r[0]; x < r[1]; x++ {
+					add(x)
+				}
+			} else {
+				addRange(r[0], r[1])
+			}
+		}
+	}
+}
+
 func pos1of(rng [][2]int) v1.Positions {
 	var b v1.PositionsBuilder
-	for _, r := range rng {
-		b.AddRange(r[0], r[1])
-	}
+	feedPositions(rng, func(x int) { b.Add(x) }, func(s, e int) { b.AddRange(s, e) })
 	p := b.Build()
 	// the builder goes on to build something else: what it built before is a value of its own
 	for _, r := range rng {
@@ -117,9 +155,7 @@ func pos1of(rng [][2]int) v1.Positions {
 }
 func pos2of(rng [][2]int) v2.Positions {
 	var b v2.PositionsBuilder
-	for _, r := range rng {
-		b.AddRange(r[0], r[1])
-	}
+	feedPositions(rng, func(x int) { b.Add(x) }, func(s, e int) { b.AddRange(s, e) })
 	p := b.Build()
 	// the builder goes on to build something else: what it built before is a value of its own
 	for _, r := range rng {
@@ -131,9 +167,7 @@ func pos2of(rng [][2]int) v2.Positions {
 }
 func pos3of(rng [][2]int) v3.Positions {
 	var b v3.PositionsBuilder
-	for _, r := range rng {
-		b.AddRange(r[0], r[1])
-	}
+	feedPositions(rng, func(x int) { b.Add(x) }, func(s, e int) { b.AddRange(s, e) })
 	p := b.Build()
 	// the builder goes on to build something else: what it built before is a value of its own
 	for _, r := range rng {
@@ -344,6 +378,12 @@ func genPrintCase(r *Rng, ver string, thorough bool) toks {
 				rng[i][1] = 1500
 			}
 		}
+	}
+	if r.Intn(60) == 0 {
+		// a last range further out: the count margin becomes 5 characters wide (the model's layout is computed in
+		// unary arithmetic, which keeps positions of a million and more out of reach here)
+		F := r.Pick([]int{9995, 10000})
+		rng = append(rng, [2]int{F, F + r.Range(1, 12)})
 	}
 	t.i(len(rng))
 	for _, x := range rng {
